@@ -160,6 +160,15 @@ def iterFrom (s : Store) (disk : Disk) : List Key → Store × List (Key × Exce
 def iter (s : Store) (disk : Disk) : Store × List (Key × Except Err Bytes) :=
   iterFrom s disk (keys s)
 
+/-- `impl PartialEq for Store<T>`: as many entries, and every key of the left store is a key of the right one -/
+def storeEq (a b : Store) : Bool :=
+  a.items.length == b.items.length && a.items.all fun e => hasKey b.items (parse e.1)
+
+/-- the fields of `Store<T>` the model accounts for: `items` (the association list), `ufo_root` (the directory the
+    abstract `Disk` of the store is read below), `impl_type` (`kind`).  A clone is the same store value - root
+    included -, the default store is the empty one. -/
+def modelledFields : List String := ["items", "ufo_root", "impl_type"]
+
 /-! ## Operation histories -/
 
 inductive Op
